@@ -19,7 +19,7 @@ m = {"version": 1,
                  {"name": "harness", "path": "harness/", "serves_properties": claimed,
                   "kind_free_text": "cargo workspaces generated from grammar corpora (derive + runtime from /repo's working tree, pest_derive as oracle), direct instantiations of the runtime generics, text / accessor / generator runners"}],
      "checks": [],
-     "notes": "Default cargo features only (grammar-extras / node tags are not modelled). Fix commits in /repo and known findings: known_findings.json. See DESIGN.md.",
+     "notes": "Default cargo features are modelled; the grammar-extras feature (node tags) is built and exercised by C20's option oracle but tags are not in the Lean model. Repairs committed to /repo (fix: commits) and known findings: known_findings.json. Statement pins: props_pins.json. Seeded regressions and behaviour-preserving refactors used to test the checks: seeded/. See DESIGN.md §0, §10, §11.",
      "not_applicable": []}
 for p in props:
     pid = p["id"]
